@@ -36,6 +36,52 @@
 #include <sys/un.h>
 #include <arpa/inet.h>
 
+/* ---- sequentialised acquisition thread ---------------------------------------
+ * For devices without select() support the daemon starts vbi_proxyd_acq_thread(): a loop of
+ *      vbi_proxyd_forward_data(dev_idx);  write(wr_fd, byte_buf, 1);
+ * that blocks in the capture read.  In this single threaded environment the thread is not
+ * started; one iteration of that loop body is the environment event env_acq_iteration(),
+ * enabled while a captured frame is waiting (the read would return).  So the daemon's own
+ * thread handling (start handshake, pipe wake-up, queue hand-over under its mutexes, stop by
+ * cancellation + cleanup handler) runs for real, with the thread's steps interleaved with the
+ * main loop at the granularity of select() calls; interleavings inside one main loop round and
+ * inside one iteration are NOT explored (that would need the E3 scheduler with condition
+ * variables and cancellation).  pthread_create/cancel/join and the two condition waits of
+ * daemon/proxyd.c are redirected here by macro; everything else is the daemon's code. */
+#include <pthread.h>
+static struct { int started, cancelled; void *arg; long iterations; } env_thr;
+static void vbi_proxyd_acq_thread_cleanup(void *pvoid_arg);
+static void env_thr_mark_active(void *arg);
+static int env_pthread_create(pthread_t *t, const pthread_attr_t *a, void *(*fn)(void *), void *arg)
+{
+        (void) a; (void) fn;
+        memset(t, 0, sizeof *t);
+        env_thr.started = 1; env_thr.cancelled = 0; env_thr.arg = arg;
+        env_thr_mark_active(arg);             /* first statement of the thread: thread_active = TRUE, then it signals start_cond */
+        return 0;
+}
+static int env_cond_wait(pthread_cond_t *c, pthread_mutex_t *m) { (void) c; (void) m; return 0; }      /* the signal has been sent */
+static int env_pthread_cancel(pthread_t t) { (void) t; env_thr.cancelled = 1; return 0; }
+static int env_cond_timedwait(pthread_cond_t *c, pthread_mutex_t *m, const struct timespec *ts)
+{
+        (void) c; (void) ts;
+        /* the thread is blocked in the capture read (a cancellation point): deferred cancellation acts now, the
+         * cleanup handler runs in the thread while the master waits with the mutex released */
+        if (env_thr.started && env_thr.cancelled) {
+                pthread_mutex_unlock(m);
+                vbi_proxyd_acq_thread_cleanup(env_thr.arg);
+                pthread_mutex_lock(m);
+                env_thr.started = 0;
+        }
+        return 0;
+}
+static int env_pthread_join(pthread_t t, void **r) { (void) t; if (r) *r = NULL; return 0; }
+#define pthread_create        env_pthread_create
+#define pthread_cancel        env_pthread_cancel
+#define pthread_join          env_pthread_join
+#define pthread_cond_wait     env_cond_wait
+#define pthread_cond_timedwait env_cond_timedwait
+
 #define main zvbid_main
 #define vbi_capture_v4l2_new verif_capture_new
 #define vbi_capture_v4l_new  verif_capture_v4l_new
@@ -43,6 +89,13 @@
 #undef main
 #undef vbi_capture_v4l2_new
 #undef vbi_capture_v4l_new
+#undef pthread_create
+#undef pthread_cancel
+#undef pthread_join
+#undef pthread_cond_wait
+#undef pthread_cond_timedwait
+
+static void env_thr_mark_active(void *arg) { proxy.dev[PVOID2INT(arg)].thread_active = TRUE; }
 
 #define ENV_RUN    0
 #define ENV_REPOLL 1
@@ -117,11 +170,23 @@ static int cap_read(vbi_capture *c, vbi_capture_buffer **raw, vbi_capture_buffer
                 static vbi_capture_buffer own; static vbi_sliced own_lines[ENV_FRAME_LINES];
                 vbi_capture_buffer *b = *sliced;
                 if (!b) { b = &own; b->data = own_lines; *sliced = b; }
-                memcpy(b->data, f->lines, f->nlines * sizeof(vbi_sliced));
-                b->size = f->nlines * sizeof(vbi_sliced);
+                /* like a real driver the device decodes the services it was programmed for (the committed union), no others */
+                int n = 0;
+                for (int i = 0; i < f->nlines; i++)
+                        if (f->lines[i].id & env_cap.last_commit_union) memcpy((vbi_sliced *) b->data + n++, &f->lines[i], sizeof(vbi_sliced));
+                b->size = n * sizeof(vbi_sliced);
                 b->timestamp = f->timestamp;
         }
         return 1;
+}
+/* the scan line ranges follow the programmed services as with a real driver (one spare line per field): the daemon
+ * sizes its buffers and bounds every client's frames by them */
+static void cap_set_ranges(vbi_capture *c)
+{       /* in place, as the V4L drivers do it: the daemon keeps the pointer vbi_capture_parameters() returned once */
+        vbi_raw_decoder *d = &((struct env_capture *) c)->dec;
+        unsigned u = env_cap.services_union;
+        d->count[0] = 1 + ((u & VBI_SLICED_TELETEXT_B) ? 2 : 0) + !!(u & VBI_SLICED_VPS) + !!(u & VBI_SLICED_CAPTION_625) + !!(u & VBI_SLICED_WSS_625);
+        d->count[1] = 1 + ((u & VBI_SLICED_TELETEXT_B) ? 1 : 0);
 }
 static vbi_raw_decoder *cap_parameters(vbi_capture *c) { return &((struct env_capture *) c)->dec; }
 static unsigned int cap_update_services(vbi_capture *c, vbi_bool reset, vbi_bool commit, unsigned int services, int strict, char **err)
@@ -131,6 +196,7 @@ static unsigned int cap_update_services(vbi_capture *c, vbi_bool reset, vbi_bool
         if (reset) env_cap.services_union = 0;
         unsigned got = services & ENV_DEV_SERVICES;
         env_cap.services_union |= got;
+        cap_set_ranges(c);
         if (commit) env_cap.last_commit_union = env_cap.services_union;
         if (!got && err) *err = strdup("simulated device: service not supported");
         return got;
@@ -160,7 +226,7 @@ vbi_capture *verif_capture_new(const char *dev_name, int buffers, unsigned int *
         c->cap.get_fd_flags = cap_get_fd_flags; c->cap._delete = cap_delete;
         c->dec.scanning = 625; c->dec.sampling_format = VBI_PIXFMT_YUV420; c->dec.sampling_rate = 13500000;
         c->dec.bytes_per_line = 1440; c->dec.offset = 128;
-        c->dec.start[0] = 6; c->dec.count[0] = 17; c->dec.start[1] = 318; c->dec.count[1] = 17;
+        c->dec.start[0] = 6; c->dec.count[0] = 1; c->dec.start[1] = 318; c->dec.count[1] = 1;
         c->dec.interlaced = FALSE; c->dec.synchronous = TRUE;
         env_cap.is_open = 1; env_cap.opens++;
         if (services) *services &= ENV_DEV_SERVICES;
@@ -436,6 +502,19 @@ static PROXY_CLNT *env_req(int c)
         return NULL;
 }
 
+/* one iteration of the acquisition thread's loop (see the top of this file); enabled while the thread exists and a
+ * frame is waiting in the capture object */
+static int env_acq_enabled(void) { return env_thr.started && !env_thr.cancelled && env_cap.is_open && env_cap.produced > env_cap.consumed; }
+static void env_acq_iteration(void)
+{
+        char byte_buf[1] = { 0 };
+        int dev_idx = PVOID2INT(env_thr.arg);
+        vbi_proxyd_forward_data(dev_idx);
+        ssize_t ret = write(proxy.dev[dev_idx].wr_fd, byte_buf, 1);
+        (void) ret;
+        env_thr.iterations++;
+}
+
 /* ---- life cycle -------------------------------------------------------------- */
 
 static void env_init(void)
@@ -457,6 +536,7 @@ static void env_init(void)
         memset(env_clnt, 0, sizeof env_clnt);
         for (int c = 0; c < ENV_MAX_CLIENTS; c++) { env_clnt[c].fd = -1; env_clnt[c].daemon_fd = -1; }
         env_npending = 0; env_now = 1000000; env_alarm_at = 0; env_send_cap = 0; env_send_eagain = 0; env_select_calls = 0; env_eintr_pending = 0;
+        memset(&env_thr, 0, sizeof env_thr);
         vbi_proxyd_add_device("/dev/vbi-verif");
         proxy.dev[0].pipe_fd = env_listen_efd;
 }
